@@ -407,7 +407,11 @@ func instrumentPackage(p *packages.Package, simPath string, callable *types.Inte
 						}
 					}
 				case "runtime":
-					if name == "ReadMemStats" {
+					if name == "Gosched" {
+						c.Replace(simSel("Gosched"))
+						rep.Rewrites["runtime.Gosched"]++
+						usedSim = true
+					} else if name == "ReadMemStats" {
 						c.Replace(simSel("ReadMemStats"))
 						rep.Rewrites["runtime.ReadMemStats"]++
 						usedSim = true
